@@ -101,6 +101,9 @@ type Stats struct {
 	PermsUsed           int32
 	ClocksUsed          int32
 	PoolsUsed           int32
+	RMWsUsed            int32
+	RMWSplits           int64 // read-modify-write statements on shared locations executed with a yield point between read and write
+	RMWSwitches         int64 // ... at which the tape asked for a scheduling decision
 	PoolGets            int64
 	PoolReuses          int64
 	PoolDrops           int64
@@ -144,7 +147,7 @@ var (
 	stepCap  int64 = 1 << 40
 	lastSite int32
 
-	gaps, picks, edges, perms, clocks, poolsS stream
+	gaps, picks, edges, perms, clocks, poolsS, rmws stream
 
 	st     Stats
 	trace  [TraceCap]Switch
@@ -167,6 +170,10 @@ type Config struct {
 	Perms  []uint32 // one per map-range visit: encoded permutation, 0 = canonical order
 	Clocks []uint32 // one per clock read: encoded delta
 	Pools  []uint32 // one per sync.Pool.Get of instrumented code: 1 = a GC has just emptied the pool
+	// RMWs: one per read-modify-write statement on a shared location (x.f = append(x.f, v), x.n++,
+	// x.n += d) that the instrumenter split into its read and its write: non-zero = take a
+	// scheduling decision between the two (0, and an exhausted stream, = the statement stays atomic).
+	RMWs []uint32
 	// StepCap bounds the number of instrumented statements of a concurrent run.
 	StepCap int64
 	// ClockBase is the simulated epoch in nanoseconds.
@@ -217,6 +224,7 @@ func Load(c *Config) {
 	loadStream(&perms, c.Perms)
 	loadStream(&clocks, c.Clocks)
 	loadStream(&poolsS, c.Pools)
+	loadStream(&rmws, c.RMWs)
 	stepCap = c.StepCap
 	if stepCap <= 0 {
 		stepCap = 1 << 40
@@ -253,6 +261,7 @@ func Snapshot() Stats {
 	s.PermsUsed = min32(perms.pos, perms.n)
 	s.ClocksUsed = min32(clocks.pos, clocks.n)
 	s.PoolsUsed = min32(poolsS.pos, poolsS.n)
+	s.RMWsUsed = min32(rmws.pos, rmws.n)
 	s.StreamOverruns = gaps.over + picks.over + edges.over + perms.over + clocks.over + poolsS.over
 	return s
 }
@@ -331,6 +340,24 @@ func Y(site int32) {
 	if budget > 0 {
 		return
 	}
+	decide(false, 0)
+}
+
+// YR is called between the read and the write of a read-modify-write statement
+// on a shared location that the instrumenter split in two. It has a stream of
+// its own, so that tapes recorded before it existed replay unchanged.
+//
+//go:norace
+func YR(site int32) {
+	if !active || coarse {
+		return
+	}
+	st.RMWSplits++
+	if next(&rmws) == 0 {
+		return
+	}
+	lastSite = site
+	st.RMWSwitches++
 	decide(false, 0)
 }
 
